@@ -351,7 +351,7 @@ pub fn gen_cos_rule(r: &mut Rng, p: &Profile) -> String {
         7 => format!("{}##{}:remove()", hosts(r), sel),
         8 => format!("{}##div:has-text({})", hosts(r), c),
         9 => {
-            let name = pick_s(r, &["set", "noop", "fnuser", "perm", "missing", "trusted"]);
+            let name = pick_s(r, &["set", "noop", "fnuser", "perm", "missing", "trusted", "usesperm", "usesperm"]);
             let arg = pick_s(r, &["a", "b.c", "1", "'q'"]);
             if r.chance(30) {
                 format!("{}##+js({})", hosts(r), name)
@@ -398,6 +398,8 @@ pub fn standard_resources() -> Vec<ResSpec> {
         mk("fndeep.fn", &[], "fn", "function fndeep() { return 2; }", &[], 0),
         mk("fnuser.js", &["fnuser"], "js", "function fnuser(a, b) { fnlib(); }", &["fnlib.fn"], 0),
         mk("frame.html", &[], "html", "<html></html>", &[], 0),
+        mk("permlib.fn", &[], "fn", "function permlib() { return 3; }", &[], 1),
+        mk("usesperm.js", &["usesperm"], "js", "function usesperm(a) { permlib(); }", &["permlib.fn"], 0),
     ]
 }
 
@@ -541,10 +543,25 @@ pub fn gen_world(seed: u64, p: &Profile) -> World {
     r.shuffle(&mut rules);
 
     let mut extra = vec![];
+    let mut next_prio: i32 = -2;
     for _ in 0..p.extra {
         let mut pp = p.clone();
         pp.badfilter = false;
         extra.push(Rule { spec: RuleSpec::Net(gen_net_rule(&mut r, &pp)), perm: 0 });
+    }
+
+    // Redirect ties are resolved by index order, which the properties leave unspecified: give
+    // every redirect / redirect-rule option of a world its own priority.
+    for rule in rules.iter_mut().chain(extra.iter_mut()) {
+        if let RuleSpec::Net(n) = &mut rule.spec {
+            for o in n.opts.iter_mut() {
+                if o.starts_with("redirect=") || o.starts_with("redirect-rule=") {
+                    let base = o.split(':').next().unwrap_or("").to_string();
+                    *o = format!("{}:{}", base, next_prio);
+                    next_prio += 1;
+                }
+            }
+        }
     }
 
     let nprobes = r.range(p.n_probes.0, p.n_probes.1);
